@@ -196,7 +196,7 @@ def to_model(case, obs):
         elif n == "dump":
             probes.append((len(evs), ci, "fs"))
             evs.append("CFs (x_dump %d)" % c[1])
-        elif n == "sqinfo":
+        elif n in ("sqinfo", "spawn_reaper"):
             pass
         else:
             problems.append("unknown command %s" % n)
@@ -887,7 +887,7 @@ def _shift(cmd, fd_off, ring_off):
     n = c[0]
     if n in ("close", "sread", "swrite", "ssync"):
         c[1] += fd_off
-    elif n in ("drop_ring", "submit", "cq_new", "sync", "next", "readable", "sqinfo", "await_cqe"):
+    elif n in ("drop_ring", "submit", "cq_new", "sync", "next", "readable", "sqinfo", "await_cqe", "spawn_reaper"):
         c[1] += ring_off
     elif n == "push":
         c[1] += ring_off
@@ -903,7 +903,10 @@ def sim_to_direct(case, obs):
     fd_off = ring_off = 0
     nfd = nring = 0
     pending = None          # (shifted cmd) of an await_cqe not yet completed
+    reaper = None           # {"ring", "parked"}: second task draining a ring
     problems = []
+    reaped_all = obs.get("reaped") or []
+    order_all = obs.get("order") or []
     for k, (st, outs) in enumerate(zip(case["script"], obs["obs"])):
         script.append(["now", k * tick])
         out.append(None)
@@ -911,6 +914,7 @@ def sim_to_direct(case, obs):
             script.append(["crash"])
             out.append(None)
             pending = None
+            reaper = None
         elif st.get("ctl") == "bounce":
             fd_off, ring_off = nfd, nring
         outs = list(outs)
@@ -918,29 +922,30 @@ def sim_to_direct(case, obs):
         if pending is not None:
             cmds = [pending] + cmds
             pending = None
+        # --- interpreter task: one group of direct-mode (command, observation) pairs per output
+        igroups = []
+        tail = []            # virtual observations at the end of the step
         for c in cmds:
             if c[0] == "await_cqe":
                 if not outs:
-                    # still waiting at the end of this step: it was not ready at this step
-                    script.append(["readable", c[1]])
-                    out.append(0)
+                    tail.append((["readable", c[1]], 0))      # still waiting: not readable at this step
                     pending = c
                     break
                 o = outs.pop(0)
                 if not isinstance(o, dict):
                     problems.append("await_cqe returned %s" % o)
                     continue
+                g = []
                 first = True
                 for (stp, vis, cqe) in o["iters"]:
                     if stp != k and not first:
                         problems.append("await iteration at step %d reported in step %d" % (stp, k))
                     if not first or stp == k:
                         if not first:
-                            script.append(["readable", c[1]])
-                            out.append(1)
-                        script += [["cq_new", c[1]], ["sync", c[1]], ["next", c[1]]]
-                        out += [None, [vis, vis == 0], cqe]
+                            g.append((["readable", c[1]], 1))
+                        g += [(["cq_new", c[1]], None), (["sync", c[1]], [vis, vis == 0]), (["next", c[1]], cqe)]
                     first = False
+                igroups.append(g)
                 if o["iters"] and o["iters"][-1][2] is None:
                     pending = c
                     break
@@ -948,22 +953,99 @@ def sim_to_direct(case, obs):
             if not outs:
                 problems.append("step %d: command %s was not executed" % (k, c))
                 break
-            script.append(c)
             o = outs.pop(0)
             if c[0] == "new" and isinstance(o, int) and o >= 0:
                 o += ring_off            # the restarted software numbers its rings from 0 again
-            out.append(o)
+            igroups.append([(c, o)])
             if c[0] == "open":
                 nfd += 1
             if c[0] == "new" and c[1] > 0:
                 nring += 1
+            if c[0] == "spawn_reaper":
+                reaper = {"ring": c[1], "parked": False, "fresh": True}
         if outs:
             problems.append("step %d: %d unexplained outputs" % (k, len(outs)))
+        # --- reaper task: one group per logged iteration
+        rgroups = []
+        entries = reaped_all[k] if k < len(reaped_all) else []
+        for (stp, vis, cqe) in entries:
+            if reaper is None:
+                problems.append("step %d: reaper output without a reaper" % k)
+                break
+            if vis == -1:
+                problems.append("reaper lost its ring at step %d" % stp)
+                continue
+            g = []
+            if reaper["parked"]:
+                g.append((["readable", reaper["ring"]], 1))       # readable() returned Ok
+                reaper["parked"] = False
+            g += [(["cq_new", reaper["ring"]], None), (["sync", reaper["ring"]], [vis, vis == 0]), (["next", reaper["ring"]], cqe)]
+            if cqe is None:
+                reaper["parked"] = True
+            rgroups.append(g)
+        # --- merge in the order the two tasks actually ran
+        order = order_all[k] if k < len(order_all) else [0] * len(igroups)
+        ii = ri = 0
+        for who in order:
+            if who == 0 and ii < len(igroups):
+                g = igroups[ii]
+                ii += 1
+            elif who == 1 and ri < len(rgroups):
+                g = rgroups[ri]
+                ri += 1
+            else:
+                continue
+            for (c, o) in g:
+                script.append(c)
+                out.append(o)
+        for g in igroups[ii:] + rgroups[ri:]:
+            for (c, o) in g:
+                script.append(c)
+                out.append(o)
+        if reaper is not None and reaper["parked"] and not entries:
+            tail.append((["readable", reaper["ring"]], 0))        # parked in readable() during the whole step
+        for (c, o) in tail:
+            script.append(c)
+            out.append(o)
     dcfg = dict(cfg)
     dcfg["mode"] = "direct"
     dcase = {"cfg": dcfg, "script": script, "full_drain": case.get("full_drain", False)}
-    bufs = []
-    return dcase, {"obs": out, "bufs": bufs, "panic": obs.get("panic")}, problems
+    return dcase, {"obs": out, "bufs": [], "panic": obs.get("panic")}, problems
+
+
+def gen_sim_reaper(rng):
+    """Sim mode, two tasks of one host: a reaper is started on an idle ring first (it parks in
+    AsyncFd::readable() with nothing in flight), the other task submits later, with idle steps in
+    between; the reaper alone drains.  By the end of the bounded run every accepted submission
+    must have been completed exactly once (full_drain)."""
+    tick = 1000000
+    lat = rng.choice([0, 500000, 1000000, 1500000, 2500000, 3000000])
+    cfg = {"mode": "sim", "seed": rng.randrange(1 << 30), "lat_ns": lat, "tick_ns": tick, "nfiles": 1, "cache": None}
+    wait_steps = (lat + tick - 1) // tick + 2
+    steps = [{"ctl": None, "cmds": [["open", 0], ["new", rng.choice([2, 4, 8])], ["spawn_reaper", 0]]}]
+    ud = 10
+    for _ in range(rng.randrange(1, 5)):
+        for _ in range(rng.choice([0, 1, 2, wait_steps])):
+            steps.append({"ctl": None, "cmds": []})
+        cmds = []
+        for _ in range(rng.choice([1, 1, 2])):
+            ud += 1
+            x = rng.random()
+            if x < 0.5:
+                op = ["write", 0, rng.choice([0, 1, 3]), [rng.randrange(1, 250) for _ in range(rng.choice([1, 2, 3]))]]
+            elif x < 0.8:
+                op = ["read", 0, 0, 4]
+            elif x < 0.9:
+                op = ["fsync", 0]
+            else:
+                op = ["cancel", ud - 1]
+            cmds.append(["push", 0, op, ud, rng.choice([0, 0, 0, 16, 4])])
+        cmds.append(["submit", 0, 0])
+        steps.append({"ctl": None, "cmds": cmds})
+    for _ in range(wait_steps + 1):
+        steps.append({"ctl": None, "cmds": []})
+    steps.append({"ctl": None, "cmds": [["dump", 0]]})
+    return {"cfg": cfg, "script": steps, "flavour": "sim-reaper", "full_drain": True}
 
 
 def gen_sim(rng):
